@@ -427,4 +427,427 @@ theorem arm_ss3 (u : Uni) (b : Int) (hb : toRune b = b) (E : Env) (o : Str) (h :
   simp only [h65, h66, h67, h68, h70, h72, h80, h81, h82, h83, reduceIte, afterSwitch_norm]
   exact ⟨_, rfl, h⟩
 
+/-! ### The CSI arm -/
+
+theorem lookupKey_map2 (a b : Int) (t : List ((Int × Int) × Int)) :
+    lookupKey [a, b] (t.map fun e => ([e.1.1, e.1.2], e.2)) = lookup2 (a, b) t := by
+  induction t with
+  | nil => rfl
+  | cons e t ih =>
+    obtain ⟨⟨a', b'⟩, v⟩ := e
+    simp only [List.map, lookupKey, lookup2, ih, List.cons.injEq, and_true]
+
+def codesStep (fin : Int) (ps : Int) (j : Nat) (key : Key) : Key :=
+  match j with
+  | 0 =>
+    let code := toRune ps
+    if code = 1 ∧ fin = 90 then { key with keycode := KeyTab, mods := ModShift }
+    else match lookup2 (code, fin) specialsKeys with
+      | some k => { key with keycode := k }
+      | none => { key with keycode := code }
+  | 1 => { key with shifted := toRune ps }
+  | 2 => { key with base := toRune ps }
+  | _ => key
+
+theorem csiCodes_iter (fin : Int) (pm : List Int) : ∀ (j : Nat) (key : Key),
+    csiCodes fin pm j key = iter (codesStep fin) pm j key := by
+  induction pm with
+  | nil => intro j key; rfl
+  | cons ps rest ih =>
+    intro j key
+    have e : csiCodes fin (ps :: rest) j key = csiCodes fin rest (j + 1) (codesStep fin ps j key) := by
+      rcases j with _ | _ | _ | n <;> rfl
+    rw [e, iter, ih]
+
+def CsiInv (fin : Int) (E : Env) (key : Key) : Prop := KeyEnv E key ∧ E.lookup "seq.Final" = some (.int fin)
+
+theorem codes_body (u : Uni) (fin : Int) (E : Env) (key : Key) (ps : Int) (j : Nat) (o : Str) (h : CsiInv fin E key) :
+    ∃ E', CsiInv fin E' (codesStep fin ps j key) ∧
+      (execSs (ctx u noFuncs) (.cons codesSwitch .nil)
+          { env := VaxisModel.Model.GoInterp.bind "ps" (.int ps) (VaxisModel.Model.GoInterp.bind "j" (.int j) E), out := o } = .norm { env := E', out := o } ∨
+       execSs (ctx u noFuncs) (.cons codesSwitch .nil)
+          { env := VaxisModel.Model.GoInterp.bind "ps" (.int ps) (VaxisModel.Model.GoInterp.bind "j" (.int j) E), out := o } = .cont { env := E', out := o }) := by
+  obtain ⟨hk, hf⟩ := h
+  have f1 := hk.fresh "KeyTab" (by simp [dkFresh])
+  have f2 := hk.fresh "ModShift" (by simp [dkFresh])
+  have f3 := hk.fresh "specialsKeys" (by simp [dkFresh])
+  unfold codesSwitch
+  simp only [Ss.ofList, Es.ofList, Cs.ofList, execSs_cons, execSs_nil, execS, evalE, evalEs, andThen_norm, VaxisModel.Model.GoInterp.bind,
+    String.reduceEq, or_self, reduceIte, List.lookup, String.reduceBEq, execCs, execDefault, labelHit, binop_eq_int, isTrue_bool, Bool.or_false, decide_eq_true_eq]
+  rcases j with _ | _ | _ | n
+  · by_cases hTab : toRune ps = 1 ∧ fin = 90
+    · obtain ⟨hT1, rfl⟩ := hTab
+      simp only [Int.natCast_zero, reduceIte, lhsNames, Option.map, litValue, String.reduceEq, callFn_rune, hf, ctx_structs, ctx_consts, ctx_maps, ctx_funcs, noFuncs, f1, f2, f3, const_KeyTab, const_ModShift,
+        List.lookup, String.reduceBEq, List.isEmpty, List.length, List.map, List.zip, List.zipWith, Bool.false_eq_true, assignVals, hasErr, bindAll, VaxisModel.Model.GoInterp.bind, or_self,
+        List.cons_append, List.nil_append, String.reduceAppend, andThen_norm, andThen_cont, afterSwitch_cont, afterSwitch_norm, binop_eq_int, binop_land, branch_bool, Bool.and_eq_true, decide_eq_true_eq,
+        zeroOf, mapIndex, V.asKey, List.foldr, lookupKey_map2, List.any, Bool.or_false, unop_not, or_true, true_or, or_false, false_or, hT1, and_self, Bool.not_eq_true', Bool.not_eq_eq_eq_not, Bool.not_true, Bool.not_false]
+      refine ⟨_, ?_, Or.inr rfl⟩
+      refine ⟨?_, by simpa [List.lookup] using hf⟩
+      simp only [codesStep, hT1, and_self, reduceIte]
+      keyenv hk
+    · simp only [Int.natCast_zero, reduceIte, lhsNames, Option.map, litValue, String.reduceEq, callFn_rune, hf, ctx_structs, ctx_consts, ctx_maps, ctx_funcs, noFuncs, f1, f2, f3, const_KeyTab, const_ModShift,
+        List.lookup, String.reduceBEq, List.isEmpty, List.length, List.map, List.zip, List.zipWith, Bool.false_eq_true, assignVals, hasErr, bindAll, VaxisModel.Model.GoInterp.bind, or_self,
+        List.cons_append, List.nil_append, String.reduceAppend, andThen_norm, andThen_cont, afterSwitch_cont, afterSwitch_norm, binop_eq_int, binop_land, branch_bool, Bool.and_eq_true, decide_eq_true_eq,
+        zeroOf, mapIndex, V.asKey, List.foldr, lookupKey_map2, List.any, Bool.or_false, unop_not, or_true, true_or, or_false, false_or, hTab, and_self, Bool.not_eq_true', Bool.not_eq_eq_eq_not, Bool.not_true, Bool.not_false]
+      simp only [codesStep, hTab, reduceIte]
+      generalize lookup2 (toRune ps, fin) specialsKeys = r
+      cases r with
+      | none =>
+        simp only [Option.isSome, Option.getD, reduceIte, andThen_norm, afterSwitch_norm]
+        exact ⟨_, ⟨by keyenv hk, by simpa [List.lookup] using hf⟩, Or.inl rfl⟩
+      | some kk =>
+        simp only [Option.isSome, Option.getD, reduceIte, andThen_norm, afterSwitch_norm, Bool.true_eq_false]
+        exact ⟨_, ⟨by keyenv hk, by simpa [List.lookup] using hf⟩, Or.inl rfl⟩
+  · have c1 : (((0 + 1 : Nat)) : Int) = 1 := rfl
+    simp only [c1, Int.reduceEq, reduceIte, lhsNames, Option.map, ctx_funcs, noFuncs, callFn_rune, List.lookup, String.reduceBEq,
+      assignVals, hasErr, Bool.false_eq_true, List.length, bindAll, VaxisModel.Model.GoInterp.bind, String.reduceEq, or_self, andThen_norm, afterSwitch_norm]
+    refine ⟨_, ⟨?_, by simpa [List.lookup] using hf⟩, Or.inl rfl⟩
+    simp only [codesStep]
+    keyenv hk
+  · have c2 : (((0 + 1 + 1 : Nat)) : Int) = 2 := rfl
+    simp only [c2, Int.reduceEq, reduceIte, lhsNames, Option.map, ctx_funcs, noFuncs, callFn_rune, List.lookup, String.reduceBEq,
+      assignVals, hasErr, Bool.false_eq_true, List.length, bindAll, VaxisModel.Model.GoInterp.bind, String.reduceEq, or_self, andThen_norm, afterSwitch_norm]
+    refine ⟨_, ⟨?_, by simpa [List.lookup] using hf⟩, Or.inl rfl⟩
+    simp only [codesStep]
+    keyenv hk
+  · have n0 : ¬ (0 : Int) = ((n + 1 + 1 + 1 : Nat) : Int) := by omega
+    have n1 : ¬ (1 : Int) = ((n + 1 + 1 + 1 : Nat) : Int) := by omega
+    have n2 : ¬ (2 : Int) = ((n + 1 + 1 + 1 : Nat) : Int) := by omega
+    simp only [n0, n1, n2, reduceIte, afterSwitch_norm, andThen_norm]
+    refine ⟨_, ⟨?_, by simpa [List.lookup] using hf⟩, Or.inl rfl⟩
+    simp only [codesStep]
+    keyenv hk
+
+theorem codes_loop (u : Uni) (fin : Int) (pm : List Int) (E : Env) (key : Key) (o : Str) (h : CsiInv fin E key)
+    (hpm : E.lookup "pm" = some (.ints pm)) :
+    ∃ E', execS (ctx u noFuncs) codesLoop { env := E, out := o } = .norm { env := E', out := o } ∧
+      CsiInv fin E' (csiCodes fin pm 0 key) := by
+  unfold codesLoop
+  simp only [execS, rangeItems, hpm, evalE]
+  rw [csiCodes_iter]
+  exact loop_inv _ (CsiInv fin) (codesStep fin) V.int (fun E s a i o hP => codes_body u fin E s a i o hP) pm 0 E key o h
+
+theorem callFn_ModifierMask (c : Ctx) (env : Env) (r : Int) : callFn c env "ModifierMask" [.int r] = .int r := rfl
+theorem callFn_EventType (c : Ctx) (env : Env) (r : Int) : callFn c env "EventType" [.int r] = .int r := rfl
+
+def modsStep (p0 : Int) (ps : Int) (j : Nat) (key : Key) : Key :=
+  match j with
+  | 0 => { key with mods := (p0 - 1).toNat }
+  | 1 => { key with event := ps - 1 }
+  | _ => key
+
+theorem csiMods_iter (pm : List Int) (l : List Int) : ∀ (j : Nat) (key : Key),
+    csiMods pm l j key = iter (modsStep (pm.headD 0)) l j key := by
+  induction l with
+  | nil => intro j key; rfl
+  | cons ps rest ih =>
+    intro j key
+    have e : csiMods pm (ps :: rest) j key = csiMods pm rest (j + 1) (modsStep (pm.headD 0) ps j key) := by
+      rcases j with _ | _ | n <;> rfl
+    rw [e, iter, ih]
+
+def ModsInv (fin p0 : Int) (pt : List Int) (E : Env) (key : Key) : Prop :=
+  CsiInv fin E key ∧ E.lookup "pm" = some (.ints (p0 :: pt))
+
+theorem mods_body (u : Uni) (fin p0 : Int) (pt : List Int) (E : Env) (key : Key) (ps : Int) (j : Nat) (o : Str) (h : ModsInv fin p0 pt E key) :
+    ∃ E', ModsInv fin p0 pt E' (modsStep p0 ps j key) ∧
+      (execSs (ctx u noFuncs) (.cons modsSwitch .nil)
+          { env := VaxisModel.Model.GoInterp.bind "ps" (.int ps) (VaxisModel.Model.GoInterp.bind "j" (.int j) E), out := o } = .norm { env := E', out := o } ∨
+       execSs (ctx u noFuncs) (.cons modsSwitch .nil)
+          { env := VaxisModel.Model.GoInterp.bind "ps" (.int ps) (VaxisModel.Model.GoInterp.bind "j" (.int j) E), out := o } = .cont { env := E', out := o }) := by
+  obtain ⟨⟨hk, hf⟩, hpm⟩ := h
+  unfold modsSwitch
+  simp only [Ss.ofList, Es.ofList, Cs.ofList, execSs_cons, execSs_nil, execS, evalE, evalEs, andThen_norm, VaxisModel.Model.GoInterp.bind,
+    String.reduceEq, or_self, reduceIte, List.lookup, String.reduceBEq, execCs, execDefault, labelHit, binop_eq_int, isTrue_bool, Bool.or_false, decide_eq_true_eq]
+  rcases j with _ | _ | n
+  · simp only [Int.natCast_zero, reduceIte, lhsNames, Option.map, ctx_funcs, noFuncs, ctx_maps, hpm, List.lookup, String.reduceBEq, listIndex,
+      Int.le_refl, Int.toNat_zero, List.getElem?_cons_zero, binop_sub, callFn_ModifierMask, assignVals, hasErr, Bool.false_eq_true, List.length, bindAll,
+      VaxisModel.Model.GoInterp.bind, String.reduceEq, or_self, andThen_norm, binop_lt, branch_bool, decide_eq_true_eq]
+    by_cases hneg : p0 - 1 < 0
+    · simp only [hneg, reduceIte, andThen_norm, afterSwitch_norm]
+      refine ⟨_, ⟨⟨?_, by simpa [List.lookup] using hf⟩, by simpa [List.lookup] using hpm⟩, Or.inl rfl⟩
+      have e0 : (p0 - 1).toNat = 0 := by omega
+      simp only [modsStep, e0]
+      keyenv hk
+    · simp only [hneg, reduceIte, andThen_norm, afterSwitch_norm]
+      refine ⟨_, ⟨⟨?_, by simpa [List.lookup] using hf⟩, by simpa [List.lookup] using hpm⟩, Or.inl rfl⟩
+      obtain ⟨m, hm⟩ : ∃ m : Nat, p0 - 1 = (m : Int) := ⟨(p0 - 1).toNat, by omega⟩
+      simp only [modsStep, hm, Int.toNat_natCast]
+      keyenv hk
+  · have c1 : (((0 + 1 : Nat)) : Int) = 1 := rfl
+    simp only [c1, Int.reduceEq, reduceIte, lhsNames, Option.map, ctx_funcs, noFuncs, callFn_EventType, binop_sub, List.lookup, String.reduceBEq,
+      assignVals, hasErr, Bool.false_eq_true, List.length, bindAll, VaxisModel.Model.GoInterp.bind, String.reduceEq, or_self, andThen_norm, afterSwitch_norm]
+    refine ⟨_, ⟨⟨?_, by simpa [List.lookup] using hf⟩, by simpa [List.lookup] using hpm⟩, Or.inl rfl⟩
+    simp only [modsStep]
+    keyenv hk
+  · have n0 : ¬ (0 : Int) = ((n + 1 + 1 : Nat) : Int) := by omega
+    have n1 : ¬ (1 : Int) = ((n + 1 + 1 : Nat) : Int) := by omega
+    simp only [n0, n1, reduceIte, afterSwitch_norm, andThen_norm]
+    refine ⟨_, ⟨⟨?_, by simpa [List.lookup] using hf⟩, by simpa [List.lookup] using hpm⟩, Or.inl rfl⟩
+    simp only [modsStep]
+    keyenv hk
+
+theorem mods_loop (u : Uni) (fin : Int) (pm : List Int) (E : Env) (key : Key) (o : Str) (h : CsiInv fin E key)
+    (hpm : E.lookup "pm" = some (.ints pm)) :
+    ∃ E', execS (ctx u noFuncs) modsLoop { env := E, out := o } = .norm { env := E', out := o } ∧
+      CsiInv fin E' (csiMods pm pm 0 key) := by
+  unfold modsLoop
+  simp only [execS, rangeItems, hpm, evalE]
+  cases pm with
+  | nil => exact ⟨E, rfl, h⟩
+  | cons p0 pt =>
+    rw [csiMods_iter]
+    obtain ⟨E', e, hE'⟩ := loop_inv (fun st' it i => execSs (ctx u noFuncs) (.cons modsSwitch .nil) { st' with env := VaxisModel.Model.GoInterp.bind "ps" it (VaxisModel.Model.GoInterp.bind "j" (.int i) st'.env) }) (ModsInv fin p0 pt) (modsStep p0) V.int (fun E s a i o hP => mods_body u fin p0 pt E s a i o hP) (p0 :: pt) 0 E key o ⟨h, hpm⟩
+    exact ⟨E', e, hE'.1⟩
+
+/-! the text loop -/
+
+def textStep (p : Int) (_ : Nat) (key : Key) : Key := { key with text := key.text ++ strOfRune (toRune p) }
+
+theorem text_iter (pm : List Int) : ∀ (j : Nat) (key : Key),
+    iter textStep pm j key = { key with text := key.text ++ (pm.map fun p => if validRune (toRune p) then toRune p else 0xFFFD) } := by
+  induction pm with
+  | nil => intro j key; simp [iter]
+  | cons p rest ih =>
+    intro j key
+    rw [iter, ih]
+    simp [textStep, strOfRune_eq]
+
+theorem text_body (u : Uni) (fin : Int) (E : Env) (key : Key) (p : Int) (j : Nat) (o : Str) (h : CsiInv fin E key) :
+    ∃ E', CsiInv fin E' (textStep p j key) ∧
+      (execSs (ctx u noFuncs) (.cons textAssign .nil)
+          { env := VaxisModel.Model.GoInterp.bind "p" (.int p) (VaxisModel.Model.GoInterp.bind "_" (.int j) E), out := o } = .norm { env := E', out := o } ∨
+       execSs (ctx u noFuncs) (.cons textAssign .nil)
+          { env := VaxisModel.Model.GoInterp.bind "p" (.int p) (VaxisModel.Model.GoInterp.bind "_" (.int j) E), out := o } = .cont { env := E', out := o }) := by
+  obtain ⟨hk, hf⟩ := h
+  unfold textAssign
+  simp only [Ss.ofList, Es.ofList, execSs_cons, execSs_nil, execS, evalE, evalEs, andThen_norm, VaxisModel.Model.GoInterp.bind,
+    String.reduceEq, or_self, or_true, true_or, reduceIte, List.lookup, String.reduceBEq, lhsNames, Option.map, ctx_funcs, noFuncs, callFn_rune, callFn_string,
+    assignVals, hasErr, Bool.false_eq_true, hk.text, binop_add_str]
+  refine ⟨_, ⟨?_, by simpa [List.lookup] using hf⟩, Or.inl rfl⟩
+  simp only [textStep]
+  keyenv hk
+
+theorem callFn_len_ints (c : Ctx) (env : Env) (l : List Int) : callFn c env "len" [.ints l] = .int l.length := rfl
+theorem callFn_len_intss (c : Ctx) (env : Env) (l : List (List Int)) : callFn c env "len" [.intss l] = .int l.length := rfl
+
+theorem text_loop (u : Uni) (fin : Int) (pm : List Int) (E : Env) (key : Key) (o : Str) (h : CsiInv fin E key)
+    (hpm : E.lookup "pm" = some (.ints pm)) :
+    ∃ E', execS (ctx u noFuncs) textLoop { env := E, out := o } = .norm { env := E', out := o } ∧
+      CsiInv fin E' { key with text := key.text ++ (pm.map fun p => if validRune (toRune p) then toRune p else 0xFFFD) } := by
+  unfold textLoop
+  simp only [execS, rangeItems, hpm, evalE]
+  rw [← text_iter pm 0 key]
+  exact loop_inv _ (CsiInv fin) textStep V.int (fun E s a i o hP => text_body u fin E s a i o hP) pm 0 E key o h
+
+def outerStep (fin : Int) (pm : List Int) (i : Nat) (key : Key) : Key :=
+  match i with
+  | 0 => csiCodes fin pm 0 key
+  | 1 => csiMods pm pm 0 key
+  | 2 =>
+    if key.keycode = 27 ∧ fin = 126 ∧ pm ≠ [] then { key with keycode := toRune (pm.headD 0) }
+    else { key with text := key.text ++ (pm.map fun p => if validRune (toRune p) then toRune p else 0xFFFD) }
+  | _ => key
+
+theorem csiParams_iter (fin : Int) (params : List (List Int)) : ∀ (i : Nat) (key : Key),
+    csiParams fin params i key = iter (outerStep fin) params i key := by
+  induction params with
+  | nil => intro i key; rfl
+  | cons pm rest ih =>
+    intro i key
+    have e : csiParams fin (pm :: rest) i key = csiParams fin rest (i + 1) (outerStep fin pm i key) := by
+      rcases i with _ | _ | _ | n <;> rfl
+    rw [e, iter, ih]
+
+theorem text_if (u : Uni) (fin : Int) (pm : List Int) (E : Env) (key : Key) (o : Str) (h : CsiInv fin E key)
+    (hpm : E.lookup "pm" = some (.ints pm)) :
+    ∃ E', execS (ctx u noFuncs) textIf { env := E, out := o } = .norm { env := E', out := o } ∧
+      CsiInv fin E' (outerStep fin pm 2 key) := by
+  obtain ⟨hk, hf⟩ := h
+  unfold textIf
+  simp only [Ss.ofList, Es.ofList, execS, execSs_nil, andThen_norm, evalE, evalEs, hk.keycode, hf, hpm, callFn_len_ints, binop_eq_int, binop_gt, binop_land,
+    branch_bool, Bool.and_eq_true, decide_eq_true_eq, outerStep]
+  by_cases hc : key.keycode = 27 ∧ fin = 126 ∧ pm ≠ []
+  · obtain ⟨h27, rfl, hne⟩ := hc
+    cases pm with
+    | nil => exact absurd rfl hne
+    | cons p0 pt =>
+      have hlen : ((pt.length + 1 : Nat) : Int) > 0 := by omega
+      simp only [h27, hlen, and_self, true_and, and_true, reduceIte, ne_eq, reduceCtorEq, not_false_eq_true, List.headD_cons, execSs_cons, execSs_nil, execS, lhsNames, Option.map,
+        evalE, evalEs, ctx_funcs, noFuncs, ctx_maps, hpm, List.lookup, String.reduceBEq, listIndex, Int.le_refl, Int.toNat_zero, List.getElem?_cons_zero, callFn_rune,
+        assignVals, hasErr, Bool.false_eq_true, List.length, bindAll, VaxisModel.Model.GoInterp.bind, String.reduceEq, or_self, andThen_norm]
+      refine ⟨_, rfl, ?_, by simpa [List.lookup] using hf⟩
+      keyenv hk
+  · have hc' : ¬ ((key.keycode = 27 ∧ fin = 126) ∧ (pm.length : Int) > 0) := by
+      rintro ⟨⟨a, b⟩, c⟩
+      apply hc
+      refine ⟨a, b, ?_⟩
+      rintro rfl
+      simp at c
+    simp only [hc, hc', reduceIte, execSs_cons, execSs_nil]
+    obtain ⟨E', e, hE'⟩ := text_loop u fin pm E key o ⟨hk, hf⟩ hpm
+    exact ⟨E', by rw [e, andThen_norm], hE'⟩
+
+theorem outer_body (u : Uni) (fin : Int) (E : Env) (key : Key) (pm : List Int) (i : Nat) (o : Str) (h : CsiInv fin E key) :
+    ∃ E', CsiInv fin E' (outerStep fin pm i key) ∧
+      (execSs (ctx u noFuncs) (.cons csiSwitch .nil)
+          { env := VaxisModel.Model.GoInterp.bind "pm" (.ints pm) (VaxisModel.Model.GoInterp.bind "i" (.int i) E), out := o } = .norm { env := E', out := o } ∨
+       execSs (ctx u noFuncs) (.cons csiSwitch .nil)
+          { env := VaxisModel.Model.GoInterp.bind "pm" (.ints pm) (VaxisModel.Model.GoInterp.bind "i" (.int i) E), out := o } = .cont { env := E', out := o }) := by
+  have h0 : CsiInv fin (("pm", V.ints pm) :: ("i", V.int i) :: E) key := ⟨by have hk := h.1; keyenv hk, by simpa [List.lookup] using h.2⟩
+  have hpm : List.lookup "pm" (("pm", V.ints pm) :: ("i", V.int i) :: E) = some (.ints pm) := by simp [List.lookup]
+  unfold csiSwitch
+  simp only [Ss.ofList, Es.ofList, Cs.ofList, execSs_cons, execSs_nil, execS, evalE, andThen_norm, VaxisModel.Model.GoInterp.bind,
+    String.reduceEq, or_self, reduceIte, List.lookup, String.reduceBEq, execCs, execDefault, labelHit, binop_eq_int, isTrue_bool, Bool.or_false, decide_eq_true_eq]
+  rcases i with _ | _ | _ | n
+  · obtain ⟨E', e, hE'⟩ := codes_loop u fin pm _ key o h0 hpm
+    simp only [Int.natCast_zero] at e
+    simp only [Int.natCast_zero, reduceIte, e, andThen_norm, afterSwitch_norm]
+    exact ⟨E', hE', Or.inl rfl⟩
+  · obtain ⟨E', e, hE'⟩ := mods_loop u fin pm _ key o h0 hpm
+    have c1 : (((0 + 1 : Nat)) : Int) = 1 := rfl
+    simp only [c1] at e
+    simp only [c1, Int.reduceEq, reduceIte, e, andThen_norm, afterSwitch_norm]
+    exact ⟨E', hE', Or.inl rfl⟩
+  · obtain ⟨E', e, hE'⟩ := text_if u fin pm _ key o h0 hpm
+    have c2 : (((0 + 1 + 1 : Nat)) : Int) = 2 := rfl
+    simp only [c2] at e
+    simp only [c2, Int.reduceEq, reduceIte, e, andThen_norm, afterSwitch_norm]
+    exact ⟨E', hE', Or.inl rfl⟩
+  · have n0 : ¬ (0 : Int) = ((n + 1 + 1 + 1 : Nat) : Int) := by omega
+    have n1 : ¬ (1 : Int) = ((n + 1 + 1 + 1 : Nat) : Int) := by omega
+    have n2 : ¬ (2 : Int) = ((n + 1 + 1 + 1 : Nat) : Int) := by omega
+    simp only [n0, n1, n2, reduceIte, afterSwitch_norm]
+    exact ⟨_, h0, Or.inl rfl⟩
+
+theorem csi_loop (u : Uni) (fin : Int) (params : List (List Int)) (E : Env) (key : Key) (o : Str) (h : CsiInv fin E key)
+    (hp : E.lookup "seq.Parameters" = some (.intss params)) :
+    ∃ E', execS (ctx u noFuncs) csiLoop { env := E, out := o } = .norm { env := E', out := o } ∧
+      CsiInv fin E' (csiParams fin params 0 key) := by
+  unfold csiLoop
+  simp only [execS, rangeItems, hp, evalE]
+  rw [csiParams_iter]
+  exact loop_inv _ (CsiInv fin) (outerStep fin) V.ints (fun E s a i o hP => outer_body u fin E s a i o hP) params 0 E key o h
+
+theorem arm_csi (u : Uni) (params : List (List Int)) (fin : Int) (E : Env) (o : Str) (h : KeyEnv E {})
+    (hf : E.lookup "seq.Final" = some (.int fin)) (hp : E.lookup "seq.Parameters" = some (.intss params)) :
+    ∃ E', afterSwitch (execSs (ctx u noFuncs) csiBody { env := E, out := o }) = .norm { env := E', out := o } ∧
+      KeyEnv E' (decodeRaw u (.csi params fin)) := by
+  unfold csiBody csiIf
+  simp only [Ss.ofList, Es.ofList, execSs_cons, execSs_nil, execS, andThen_norm, evalE, evalEs, hp, callFn_len_intss, binop_eq_int, branch_bool,
+    decide_eq_true_eq, decodeRaw]
+  cases params with
+  | nil =>
+    simp only [List.length, Int.natCast_zero, reduceIte, lhsNames, Option.map, litValue, String.reduceEq, List.foldr, assignVals, hasErr, Bool.false_eq_true,
+      bindAll, VaxisModel.Model.GoInterp.bind, or_self, andThen_norm]
+    obtain ⟨E', e, hE'⟩ := csi_loop u fin [[1]] (("seq.Parameters", V.intss [[1]]) :: E) {} o
+      ⟨by keyenv h, by simpa [List.lookup] using hf⟩ (by simp [List.lookup])
+    exact ⟨E', by rw [e, andThen_norm, afterSwitch_norm], hE'.1⟩
+  | cons p0 pt =>
+    have hlen : ¬ ((pt.length + 1 : Nat) : Int) = 0 := by omega
+    simp only [List.length, hlen, reduceIte, reduceCtorEq]
+    obtain ⟨E', e, hE'⟩ := csi_loop u fin (p0 :: pt) E {} o ⟨h, hf⟩ hp
+    exact ⟨E', by simp only [andThen_norm, e, afterSwitch_norm], hE'.1⟩
+
+def baseEnv (s : Seq) : Env :=
+  ("key", .struct keyStruct) :: ("key.Text", .str []) :: ("key.Keycode", .int 0) :: ("key.ShiftedCode", .int 0) ::
+    ("key.BaseLayoutCode", .int 0) :: ("key.Modifiers", .int 0) :: ("key.EventType", .int 0) :: [("seq", seqValue s)]
+
+theorem dS1_eval (u : Uni) (s : Seq) :
+    execS (ctx u noFuncs) dS1 { env := [("seq", seqValue s)] } = .norm { env := baseEnv s } := by
+  unfold dS1
+  simp only [Es.ofList, execS, lhsNames, Option.map, evalEs, evalE, litValue, String.reduceEq, reduceIte, ctx_structs,
+    List.lookup, String.reduceBEq, List.isEmpty, assignVals, hasErr, Bool.false_eq_true, List.length, bindAll]
+  rfl
+
+theorem dS2_print (u : Uni) (g : Str) :
+    execS (ctx u noFuncs) dS2 { env := baseEnv (.print g) } =
+      afterSwitch (execSs (ctx u noFuncs) printBody { env := armEnv [("seq.Grapheme", .str g)] (.struct [("Grapheme", .str g)]) (.print g) }) := by
+  unfold dS2
+  simp only [Cs.ofList, Es.ofList, execS, evalE, baseEnv, List.lookup, String.reduceBEq, seqValue, VaxisModel.Model.GoInterp.bind, String.reduceEq, or_self, reduceIte,
+    List.map, String.reduceAppend, List.cons_append, List.nil_append, execTy, tyHit, Bool.or_false, Bool.or_true, Bool.false_eq_true]
+  rfl
+
+theorem dS2_c0 (u : Uni) (b : Int) :
+    execS (ctx u noFuncs) dS2 { env := baseEnv (.c0 b) } =
+      afterSwitch (execSs (ctx u noFuncs) c0Body { env := armEnv [] (.int b) (.c0 b) }) := by
+  unfold dS2
+  simp only [Cs.ofList, Es.ofList, execS, evalE, baseEnv, List.lookup, String.reduceBEq, seqValue, VaxisModel.Model.GoInterp.bind, String.reduceEq, or_self, reduceIte,
+    List.map, String.reduceAppend, List.cons_append, List.nil_append, execTy, tyHit, Bool.or_false, Bool.or_true, Bool.false_eq_true]
+  rfl
+
+theorem dS2_esc (u : Uni) (fin : Int) :
+    execS (ctx u noFuncs) dS2 { env := baseEnv (.esc fin) } =
+      afterSwitch (execSs (ctx u noFuncs) escBody { env := armEnv [("seq.Final", .int fin)] (.struct [("Final", .int fin)]) (.esc fin) }) := by
+  unfold dS2
+  simp only [Cs.ofList, Es.ofList, execS, evalE, baseEnv, List.lookup, String.reduceBEq, seqValue, VaxisModel.Model.GoInterp.bind, String.reduceEq, or_self, reduceIte,
+    List.map, String.reduceAppend, List.cons_append, List.nil_append, execTy, tyHit, Bool.or_false, Bool.or_true, Bool.false_eq_true]
+  rfl
+
+theorem dS2_ss3 (u : Uni) (b : Int) :
+    execS (ctx u noFuncs) dS2 { env := baseEnv (.ss3 b) } =
+      afterSwitch (execSs (ctx u noFuncs) ss3Body { env := armEnv [] (.int b) (.ss3 b) }) := by
+  unfold dS2
+  simp only [Cs.ofList, Es.ofList, execS, evalE, baseEnv, List.lookup, String.reduceBEq, seqValue, VaxisModel.Model.GoInterp.bind, String.reduceEq, or_self, reduceIte,
+    List.map, String.reduceAppend, List.cons_append, List.nil_append, execTy, tyHit, Bool.or_false, Bool.or_true, Bool.false_eq_true]
+  rfl
+
+theorem dS2_csi (u : Uni) (params : List (List Int)) (fin : Int) :
+    execS (ctx u noFuncs) dS2 { env := baseEnv (.csi params fin) } =
+      afterSwitch (execSs (ctx u noFuncs) csiBody { env := armEnv [("seq.Parameters", .intss params), ("seq.Final", .int fin)] (.struct [("Parameters", .intss params), ("Final", .int fin)]) (.csi params fin) }) := by
+  unfold dS2
+  simp only [Cs.ofList, Es.ofList, execS, evalE, baseEnv, List.lookup, String.reduceBEq, seqValue, VaxisModel.Model.GoInterp.bind, String.reduceEq, or_self, reduceIte,
+    List.map, String.reduceAppend, List.cons_append, List.nil_append, execTy, tyHit, Bool.or_false, Bool.or_true, Bool.false_eq_true]
+  rfl
+
+theorem lookup_none_of_keys (fields : Env) (names : List String) (h : ∀ n ∈ fields.map Prod.fst, n ∉ names) :
+    ∀ x ∈ names, fields.lookup x = none := by
+  induction fields with
+  | nil => intro x _; rfl
+  | cons p rest ih =>
+    intro x hx
+    obtain ⟨n, v⟩ := p
+    have hn : n ∉ names := h n (by simp)
+    have : (x == n) = false := by
+      rw [beq_eq_false_iff_ne]; rintro rfl; exact hn hx
+    rw [List.lookup_cons, this]
+    exact ih (fun m hm => h m (by simp only [List.map_cons, List.mem_cons]; exact Or.inr hm)) x hx
+
+/-- sequences as the parser produces them: `ansi.C0` and `ansi.SS3` are `rune`s (int32) -/
+def seqIsRune : Seq → Prop
+  | .c0 b => toRune b = b
+  | .ss3 b => toRune b = b
+  | _ => True
+
+theorem decode_head (u : Uni) (s : Seq) (hs : seqIsRune s) :
+    ∃ E, execSs (ctx u noFuncs) (.cons dS1 (.cons dS2 .nil)) { env := [("seq", seqValue s)] } = .norm { env := E, out := [] } ∧
+      KeyEnv E (decodeRaw u s) := by
+  rw [execSs_cons, dS1_eval, andThen_norm]
+  simp only [execSs_cons, execSs_nil]
+  cases s with
+  | print g =>
+    obtain ⟨E', e, hE'⟩ := arm_print u g _ [] (keyEnv_armEnv [("seq.Grapheme", .str g)] (.struct [("Grapheme", .str g)]) (.print g)
+      (lookup_none_of_keys _ _ (by simp only [List.map]; decide))) (by rfl)
+    exact ⟨E', by rw [dS2_print, e]; rfl, hE'⟩
+  | c0 b =>
+    obtain ⟨E', e, hE'⟩ := arm_c0 u b hs _ [] (keyEnv_armEnv [] (.int b) (.c0 b) (lookup_none_of_keys _ _ (by simp only [List.map]; decide))) (by rfl)
+    exact ⟨E', by rw [dS2_c0, e]; rfl, hE'⟩
+  | esc fin =>
+    obtain ⟨E', e, hE'⟩ := arm_esc u fin _ [] (keyEnv_armEnv [("seq.Final", .int fin)] (.struct [("Final", .int fin)]) (.esc fin)
+      (lookup_none_of_keys _ _ (by simp only [List.map]; decide))) (by rfl)
+    exact ⟨E', by rw [dS2_esc, e]; rfl, hE'⟩
+  | ss3 b =>
+    obtain ⟨E', e, hE'⟩ := arm_ss3 u b hs _ [] (keyEnv_armEnv [] (.int b) (.ss3 b) (lookup_none_of_keys _ _ (by simp only [List.map]; decide))) (by rfl)
+    exact ⟨E', by rw [dS2_ss3, e]; rfl, hE'⟩
+  | csi params fin =>
+    obtain ⟨E', e, hE'⟩ := arm_csi u params fin _ [] (keyEnv_armEnv [("seq.Parameters", .intss params), ("seq.Final", .int fin)]
+      (.struct [("Parameters", .intss params), ("Final", .int fin)]) (.csi params fin) (lookup_none_of_keys _ _ (by simp only [List.map]; decide))) (by rfl) (by rfl)
+    exact ⟨E', by rw [dS2_csi, e]; rfl, hE'⟩
+
+theorem decodeKey_body_eq (u : Uni) (s : Seq) (hs : seqIsRune s) : decodeKeyGen u s = some (decodeKey u s) := by
+  unfold decodeKeyGen
+  obtain ⟨E, e, hE⟩ := decode_head u s hs
+  rw [decodeKeyBody_eq, execSs_cons2, e, andThen_norm]
+  exact decode_tail u E [] _ hE
+
 end VaxisModel.Lemmas.KeyBodyEval
